@@ -284,6 +284,7 @@ class Builtin2Mixin:
         self.hstore(st, r, 'args', tup)
         kd = self.materialise_kwdict(st, KwDictV(args.kw, args.kwrest))
         self.hstore(st, r, 'kwargs', kd.term)
+        self.hstore(st, r, 'idx', intv(z3.Length(st.TR)))   # ghost: position of this event in the trace
         self.hstore(st, r, 'raised', none)
         self.hstore(st, r, 'awaited', none)
         self.hstore(st, r, 'result', none)
@@ -305,7 +306,13 @@ class Builtin2Mixin:
                 o2 = self.alloc(st, self.cls('tuple'))
                 st.LS = z3.Store(st.LS, r_of(o2.term), self.spec_seq(st, val2))
                 self.hstore(st, r, 'snapshot2', o2.term)
+        oldtr = st.TR
         st.TR = z3.Concat(st.TR, z3.Unit(ev.term))
+        # element-wise / prefix view of the extended trace (instances the sequence solver does not find under quantifiers)
+        j = smt.fresh('tj', smt.Int)
+        st.assume(z3.Length(st.TR) == z3.Length(oldtr) + 1)
+        st.assume(st.TR[z3.Length(oldtr)] == ev.term)
+        st.assume(z3.ForAll([j], z3.Implies(AND(j >= 0, j < z3.Length(oldtr)), st.TR[j] == oldtr[j])))
         return ev
 
     def havoc_user(self, st: St):
